@@ -197,7 +197,15 @@ class World(object):
             mine = op.get('m')
             others = [(k, canon.ser_machine(mm)) for k, mm in sorted(self.machines.items()) if k != mine]
         # a stateless call may be repeated (a caller's retry loop); what is recorded is the last answer
-        for _ in range(op.get('rep', 1) if kind in REPEATABLE else 1):
+        nrep = op.get('rep', 1) if kind in REPEATABLE else 1
+        if nrep > 1:
+            self.stats['repeated_calls'] = self.stats.get('repeated_calls', 0) + nrep - 1
+            if nrep >= 20:
+                self.stats['retry_storms'] = self.stats.get('retry_storms', 0) + 1
+        for fl in ('noargs', 'nocache', 'modonly', 'xattr', 'symoff', 'ill'):
+            if op.get(fl) is not None:
+                self.stats['style:' + fl] = self.stats.get('style:' + fl, 0) + 1
+        for _ in range(nrep):
             reset_budget()
             try:
                 r = getattr(self, 'op_' + kind)(idx, op, resolved, mut)
@@ -999,6 +1007,7 @@ def call_styles(ops):
         k = op['op']
         if k in ('simp', 'eval', 'exprapi') and isinstance(op.get('e'), list) and rng2.random() < pbad:
             op['e'] = ill_typed(rng2, op['e'], regs)
+            op['ill'] = 1
         if k in REPEATABLE and rng2.random() < prep:
             op['rep'] = rng2.choice([2, 3, 20, 40])
     if rng2.random() < 0.15:
@@ -1007,6 +1016,7 @@ def call_styles(ops):
         if cands:
             op = ops[rng2.choice(cands)]
             op['e'] = ill_typed(rng2, op['e'], regs)
+            op['ill'] = 1
             op['rep'] = rng2.choice([20, 40, 40, 64])
 
 def ill_typed(rng, e, regs):
